@@ -33,8 +33,10 @@ RULE = ("cases: one write history (put/delete/txn/delete-prefix; bursts, same-va
         "non-trivial = at least one message delivered; classes add: a store change was coalesced (+1), consecutive equal store "
         "contents (+2), multi-key content (+4), non-empty content at subscription (+8), fault injected (+16), a content "
         "came back after being replaced (+32), 3-member same-host cluster with the server of one member stopped (+64); "
+        "size dimension: values up to ~200 KiB, prefix totals crossing a small non-default cluster.max-call-send-msg-size "
+        "(64 KiB..2 MiB) and the 2/4 MiB client defaults; "
         "group endpoints: etcd client endpoint list built by getClient vs members of the initial cluster (1-7 members, same "
-        "host / distinct hosts); distinct = distinct (group, input) hashes among non-trivial cases")
+        "host / distinct hosts) and its per-call send/receive limits vs the option; distinct = distinct (group, input) hashes among non-trivial cases")
 TRUSTED_BASE = [
     "model coq/model/Syncer.v is hand-written; tied to pkg/cluster/syncer.go + op.go by the per-run correspondence (sampled)",
     "the store-state sequence is what the harness reads back from the embedded etcd (GetRaw/GetRawPrefix, linearizable reads) "
@@ -74,16 +76,24 @@ def _content(c):
     return L([T(S(k), S(v)) for k, v in (c or [])])
 
 
+def _val(v, size):
+    """large values are one byte repeated `size` times; harness and model both use the token #<size>:<byte>"""
+    if size and size > 256:
+        return "#%d:%s" % (size, (v or "x")[:1])
+    return v
+
+
 def _op(o):
     k = o["k"]
     if k == "put":
-        return C("OPut", S(o.get("key", "")), S(o.get("val", "")))
+        return C("OPut", S(o.get("key", "")), S(_val(o.get("val", ""), o.get("size", 0))))
     if k == "del":
         return C("ODel", S(o.get("key", "")))
     if k == "delprefix":
         return C("ODelPrefix", S(o.get("key", "")))
     if k == "txn":
-        return C("OTxn", L([T(S(kv["key"]), Opt(kv.get("val"), S)) for kv in (o.get("kvs") or [])]))
+        return C("OTxn", L([T(S(kv["key"]), Opt(None if kv.get("val") is None else _val(kv["val"], o.get("size", 0)), S))
+                            for kv in (o.get("kvs") or [])]))
     return "ONop"
 
 
@@ -106,7 +116,8 @@ def encode(c):
     i, o = c["in"], c["obs"]
     if c["grp"] == "endpoints":
         return Rec(e_members=Nat(i["members"]), e_same_host=B(i.get("same_host")),
-                   e_endpoints=Nat(min(4000, o.get("endpoints", 0))), e_covers=B(o.get("covers") and not o.get("bad")))
+                   e_endpoints=Nat(min(4000, o.get("endpoints", 0))), e_covers=B(o.get("covers") and not o.get("bad")),
+                   e_send_opt=Z(o.get("send_opt", 0)), e_send=Z(o.get("send", -1)), e_recv=Z(o.get("recv", -1)))
     if c["grp"] == "multi":
         return Rec(m_case=_encode_sync(i, o), m_members=Nat(i.get("members", 1)),
                    m_down=Nat(_down_max(i.get("ops") or [])), m_endpoints=Nat(min(4000, o.get("endpoints", 0))))
@@ -129,7 +140,7 @@ def _encode_sync(i, o):
 
 def distribution(cases):
     d = dict(groups={}, ops_hist={}, op_kinds={}, sub_kinds={}, consumers={}, subscribe_pos=dict(start=0, middle=0, end=0),
-             messages=0, store_states=0, dropped_watch_responses=0, injected_cancels=0, harness_failures=0)
+             messages=0, store_states=0, large_value_cases=0, max_watched_bytes=0, send_limit_options={}, dropped_watch_responses=0, injected_cancels=0, harness_failures=0)
     for c in cases:
         i, o = c["in"], c["obs"]
         d["groups"][c["grp"]] = d["groups"].get(c["grp"], 0) + 1
@@ -140,6 +151,14 @@ def distribution(cases):
         d["ops_hist"][b] = d["ops_hist"].get(b, 0) + 1
         for x in ops:
             d["op_kinds"][x["k"]] = d["op_kinds"].get(x["k"], 0) + 1
+        if any(x.get("size", 0) > 256 for x in ops):
+            d["large_value_cases"] += 1
+            lim = str(i.get("send_limit", 0))
+            d["send_limit_options"][lim] = d["send_limit_options"].get(lim, 0) + 1
+            for so in o.get("subs") or []:
+                for st in so.get("states") or []:
+                    tot = sum(int(v[1:].split(":")[0]) if v.startswith("#") else len(v) for _, v in st)
+                    d["max_watched_bytes"] = max(d["max_watched_bytes"], tot)
         for s in i.get("subs") or []:
             d["sub_kinds"][s["kind"]] = d["sub_kinds"].get(s["kind"], 0) + 1
             d["consumers"][s["consumer"]] = d["consumers"].get(s["consumer"], 0) + 1
